@@ -24,6 +24,22 @@ DROP_ATTRS = re.compile(
 DERIVE = re.compile(r'#\[derive\(([^\]]*)\)\]')
 
 
+def normalized_lines(text, inverse_renames=None, keep_order=False):
+    """the lines of a function text without comments and layout, sorted: two texts with the same list differ only in the
+    ORDER of their lines (reordered match arms, swapped independent statements)"""
+    out = []
+    for line in text.split('\n'):
+        toks = [t.text for t in rsparse.tokenize(line) if t.kind != 'com']
+        if inverse_renames:
+            toks = [inverse_renames.get(t, t) for t in toks]
+        # a trailing comma after the last arm/element is layout
+        if toks and toks[-1] == ',':
+            toks = toks[:-1]
+        if toks:
+            out.append(' '.join(toks))
+    return out if keep_order else sorted(out)
+
+
 CLOSURE_HEAD = re.compile(r'[(,=]\s*(?:move\s+)?\|[^|\n]*\|')
 def _norm_tokens(text):
     """token texts without comments and without a trailing comma before a closing bracket (formatting only)"""
@@ -182,6 +198,8 @@ class Unit:
         self.sentinel = sentinel
         self.sentinels = []
         self.relaxed = []
+        self.fn_lines = {}     # key -> sorted normalized lines of the function text (is a change a pure permutation of lines?)
+        self.fn_renames = {}   # key -> renames inferred for this function (old name -> new name)
         self.fn_closures = {}  # key -> number of closure expressions in the function text (a NEW closure has no contract)
         self.fn_idents = {}   # key -> identifiers of the function text in order of first occurrence (rename inference)
         self._base_idents = None
@@ -341,8 +359,11 @@ class Unit:
         text = self.clean(it.text)
         self.fn_idents[key] = first_occurrence_idents(text)
         self.fn_closures[key] = len(CLOSURE_HEAD.findall(text))
+        self.fn_lines[key] = normalized_lines(text, keep_order=True)
         # renames of locals/parameters since the baseline, for rules whose ghost text names locals (see _inferred_renames)
         self.current_renames = self._inferred_renames(key)
+        if self.current_renames:
+            self.fn_renames[key] = dict(self.current_renames)
         for r in rules:
             text = r(self, key, text)
         c = self.contracts.get(key)
